@@ -100,6 +100,14 @@ def run(ctx):
                             "(the ordering clauses about the bubble point fail for a depletion history)", dict(**inp_a, order=how),
                             dict(max_rel_diff_Bo=float(np.nanmax(np.abs(bp / ba[perm] - 1))), max_rel_diff_gor=float(np.nanmax(np.abs(gp / ga[perm] - 1)))))
                         break
+        # scalar pressures in the other forms a caller may use (numpy scalars, 0-d and one-element arrays, ints, float32)
+        if k % 10 == 4:
+            rep = lambda what, i_, got_, want_: bad(what, i_, dict(got=got_, expected=want_))
+            for pin in (float(int(0.6 * pb)) if 0.6 * pb > 16 else None, float(int(1.7 * pb))):
+                if pin is None or abs(pin - pb) < 1.5:
+                    continue
+                for name in ("solution_gor_Standing", "b_o_Standing", "density_Standing", "viscosity_beggs_robinson"):
+                    ev += dom.check_forms(lambda q, name=name: getattr(oil, name)(T, q, api, gg, rsi), pin, dom.SCALAR_FORMS + dom.ARRAY1_FORMS, rep, "oil." + name, inp)
         if k < (4 if ctx.quick else 25):
             fa = lambda *xs: " ".join(core.frac(float(x)) for x in xs)
             for p in (float(rng.uniform(15, 0.97 * pb)), float(rng.uniform(1.03 * pb, 2.5 * pb))):
